@@ -270,4 +270,146 @@ example :
     pathFile ["file", "fa", "a"] = some ("fa", "a") ∧ pathFile ["folder", "fa", "delete", "a", "extra"] = some ("fa", "a") := by
   decide
 
+/-! ### a request that lacks an option its handler needs (after repair F-C05-2) -/
+
+/-- Under `Inv` a continuation that answers `failure` makes the `folder` route answer `failure` (never `raised`: no route dangles). -/
+theorem viaFolder_const_failure {s : State} (h : Inv s) (F : Name) :
+    (viaFolder s F (fun g => some (g, .failure))).2 = .failure := by
+  rcases viaFolder_out h F (fun g => some (g, .failure)) with ⟨_, e⟩ | ⟨g, _, _, ⟨hk, _⟩ | ⟨g', o, hk, e⟩⟩
+  · rw [e]
+  · simp at hk
+  · rw [e]; simp only [Option.some.injEq, Prod.mk.injEq] at hk; exact hk.2.symm
+
+/-- **No request path raises**: whatever an agent sends below `file_system` — any list of strings — the answer is never an
+exception, in any state satisfying `Inv`, in any power state. (`raised` remains an outcome of direct Python-API calls only.) -/
+theorem C15_no_request_raises (n : NState) (h : Inv n.x.s) (path : List String) : (nstep n (.req path)).2 ≠ .raised := by
+  cases hon : n.on with
+  | false => rw [(C15_node_request_refused_while_off n hon path).1]; simp
+  | true =>
+    cases hres : resolve n.x.s path with
+    | inl op => rw [((C15_node_request_is_fs_request n path hon).1 op hres).2]; exact C15_never_raises h op
+    | inr o =>
+      rw [(C15_node_request_is_fs_request n path hon).2 o hres]
+      intro e
+      simp only at e
+      subst e
+      -- `resolve` has no `raised` literal left; the two `folder` sub-cases go through `viaFolder`
+      unfold resolve at hres
+      repeat' (split at hres)
+      all_goals first
+        | (simp only [reduceCtorEq] at hres; done)
+        | (simp only [Sum.inr.injEq, reduceCtorEq] at hres; done)
+        | (simp only [Sum.inr.injEq] at hres; rw [viaFolder_const_failure h] at hres; simp at hres)
+
+theorem fileRequest_other_out {g : Folder} (h : FolderInv g) (y : Name) :
+    (g.fileRequest y .other).2 = .failure ∨ (g.fileRequest y .other).2 = .unreachable := by
+  have h1 := fileRequest_out_ne_raised h y .other
+  have h2 : (g.fileRequest y .other).2 ≠ .success := by
+    unfold Folder.fileRequest
+    split
+    · simp
+    · split
+      · simp
+      · split
+        · simp
+        · simp [File.verb]
+  cases ho : (g.fileRequest y .other).2 <;> simp_all
+
+/-- What a truncated request denotes: an answer `failure` / `unreachable` alone, or an item request with no verb. -/
+def Harmless : Sum Op Out → Prop
+  | .inr o => o = .failure ∨ o = .unreachable
+  | .inl op => (∃ F, op = .folderVerb F .other) ∨ (∃ F x, op = .fileVerb F x .other) ∨ (∃ F x, op = .fsFileVerb F x .other)
+
+/-- **Every proper prefix of every one of the 23 request shapes is harmless**: cut a registered request short anywhere — before
+the options its handler or validator reads — and what is left denotes no state-changing operation. -/
+theorem C15_truncated_shape_harmless {s : State} (h : Inv s) (F x force : String) :
+    ∀ shape ∈ requestShapes, ∀ k, k < shape.length → Harmless (resolve s (instShape F x force (shape.take k))) := by
+  intro shape hs k hk
+  have hv := viaFolder_const_failure h F
+  simp only [requestShapes, List.mem_cons, List.not_mem_nil, or_false] at hs
+  rcases hs with rfl | rfl | rfl | rfl | rfl | rfl | rfl | rfl | rfl | rfl | rfl | rfl | rfl | rfl | rfl | rfl | rfl | rfl |
+    rfl | rfl | rfl | rfl | rfl <;>
+  (rcases k with _ | _ | _ | _ | _ | k <;>
+    first
+      | (exfalso; simp only [List.length_cons, List.length_nil] at hk; omega)
+      | (simp [instShape, resolve, Harmless, hv]; done))
+
+/-- A harmless request changes nothing — structure, every `num_access`, every countdown, the counters, the node — and is
+answered `failure` or `unreachable`. -/
+theorem C15_harmless_changes_nothing (n : NState) (h : Inv n.x.s) (path : List String) (hh : Harmless (resolve n.x.s path)) :
+    (nstep n (.req path)).1 = n ∧ ((nstep n (.req path)).2 = .failure ∨ (nstep n (.req path)).2 = .unreachable) := by
+  obtain ⟨x, on, cd, dur⟩ := n
+  cases on with
+  | false => exact ⟨by simp [nstep, nstepWith, codeGlue], Or.inl (by simp [nstep, nstepWith, codeGlue])⟩
+  | true =>
+    simp only [nstep, nstepWith, codeGlue, Bool.not_true, Bool.false_eq_true, if_false]
+    cases hres : resolve x.s path with
+    | inr o => rw [hres] at hh; exact ⟨rfl, hh⟩
+    | inl op =>
+      rw [hres] at hh
+      have hI : Inv x.s := h
+      -- the three item requests without a verb: answered by the guard or `unreachable`, nothing touched
+      have key : ∃ o, (o = Out.failure ∨ o = Out.unreachable) ∧ stepX x op = (x, o) := by
+        rcases hh with ⟨F, rfl⟩ | ⟨F, y, rfl⟩ | ⟨F, y, rfl⟩
+        · have hstep : ∃ o, (o = Out.failure ∨ o = Out.unreachable) ∧ step x.s (.folderVerb F .other) = (x.s, o) := by
+            simp only [step]
+            rcases viaFolder_out hI F (fun g => (g.verb .other).map (fun (g', b) => (g', ofBool b))) with
+              ⟨_, e⟩ | ⟨g, _, _, ⟨_, e⟩ | ⟨g', o, hk, _⟩⟩
+            · exact ⟨_, Or.inl rfl, e⟩
+            · exact ⟨_, Or.inr rfl, e⟩
+            · simp [Folder.verb] at hk
+          obtain ⟨o, ho, hs⟩ := hstep
+          refine ⟨o, ho, stepX_unchanged x _ o hs ?_ (by simp) (by simp) (by intro F' e; cases e) rfl⟩
+          simp only [reqTouch]
+          cases routedFolder x.s F <;> rfl
+        · have hstep : ∃ o, (o = Out.failure ∨ o = Out.unreachable) ∧ step x.s (.fileVerb F y .other) = (x.s, o) := by
+            simp only [step]
+            rcases viaFolder_out hI F (fun g => some (g.fileRequest y .other)) with ⟨_, e⟩ | ⟨g, hgm, _, ⟨hk, _⟩ | ⟨g', o, hk, e⟩⟩
+            · exact ⟨_, Or.inl rfl, e⟩
+            · simp at hk
+            · simp only [Option.some.injEq] at hk
+              have gi := (hI.folder g (Or.inl hgm)).1
+              have e1 := fileRequest_state gi y .other
+              rw [hk] at e1
+              simp only at e1
+              subst e1
+              refine ⟨o, ?_, by rw [e, updFolder_self hI hgm]⟩
+              have ho : o = (g'.fileRequest y .other).2 := by rw [hk]
+              rw [ho]
+              exact fileRequest_other_out gi y
+          obtain ⟨o, ho, hs⟩ := hstep
+          refine ⟨o, ho, stepX_unchanged x _ o hs ?_ (by simp) (by simp) (by intro F' e; cases e) rfl⟩
+          simp only [reqTouch]
+          cases routedFolder x.s F with
+          | none => rfl
+          | some g => simp only; cases g.routedFile y <;> simp [verbTouch]
+        · have hstate := fsFileVerb_state hI F y .other
+          have hstep : ∃ o, (o = Out.failure ∨ o = Out.unreachable) ∧ step x.s (.fsFileVerb F y .other) = (x.s, o) := by
+            simp only [step]
+            refine ⟨(fsFileVerb x.s F y .other).2, ?_, Prod.ext hstate rfl⟩
+            unfold fsFileVerb
+            cases getFolder x.s F with
+            | none => exact Or.inl rfl
+            | some g =>
+              simp only
+              cases g.getFile y with
+              | none => exact Or.inl rfl
+              | some f => simp [File.verb]
+          obtain ⟨o, ho, hs⟩ := hstep
+          refine ⟨o, ho, stepX_unchanged x _ o hs ?_ (by simp) (by simp) (by intro F' e; cases e) rfl⟩
+          simp only [reqTouch]
+          cases getFile x.s F y <;> simp [verbTouch]
+      obtain ⟨o, ho, hs⟩ := key
+      simp only [hs]
+      exact ⟨trivial, ho⟩
+
+/-- **A request that lacks an option its handler or validator needs answers `failure` (or `unreachable`) and changes nothing**, for
+every one of the 23 request shapes cut short at any point, any names, any state satisfying `Inv`, any power state. -/
+theorem C15_truncated_request_changes_nothing (n : NState) (h : Inv n.x.s) (F x force : String) :
+    ∀ shape ∈ requestShapes, ∀ k, k < shape.length →
+      (nstep n (.req (instShape F x force (shape.take k)))).1 = n ∧
+      ((nstep n (.req (instShape F x force (shape.take k)))).2 = .failure ∨
+       (nstep n (.req (instShape F x force (shape.take k)))).2 = .unreachable) :=
+  fun shape hs k hk => C15_harmless_changes_nothing n h _ (C15_truncated_shape_harmless h F x force shape hs k hk)
+
 end Primaite.FileSystem
